@@ -1,4 +1,5 @@
 import RV.Lemmas.ExecutorX
+import RV.Oracle.ExecutorXPlanes
 import RV.Props.ExecutorThms
 /-!
 # The BatchRelease executor over **every** control plane (C01.3, C06, C07, C09, C11, C18)
@@ -16,32 +17,34 @@ open RV.Arith RV.BatchCtx RV.Executor RV.ExecutorX RV.Oracle.ExecutorX
 
 variable {W : Type}
 
-/-- **Plane laws.**  What the executor relies on, stated with the plane's *own* predicates:
-    `ready` (the batch the persisted status points at has its pods, as the plane counts them), `released` (the workload is
-    no longer under this BatchRelease's control), `exposure` (how many pods of the new revision the world lets run) and
-    `allowed` (what the plan entry of the current batch allows). -/
-structure Laws (P : Plane W) where
-  ready    : BR → W → Bool
-  released : BR → W → Bool
-  exposure : W → Int
-  allowed  : BR → W → Int
+/-- **Plane laws.**  What the executor relies on, stated with the plane's *own* predicates `Q : Preds W`
+    (`ready`: the batch the persisted status points at has its pods, as the plane counts them; `released`: the workload is
+    no longer under this BatchRelease's control), for every world the API server can hold (`Q.wf`). -/
+structure Laws (P : Plane W) (Q : Preds W) : Prop where
   /-- `EnsureBatchPodsReadyAndLabeled` returns nil exactly when the plane's readiness predicate holds (never from the new status) -/
-  ensure_ok_iff : ∀ br ns w, P.ensure br ns w = .val .ok ↔ ready br w = true
+  ensure_ok_iff : ∀ br ns w, Q.wf w = true → (P.ensure br ns w = .val .ok ↔ Q.ready br w = true)
   /-- `Finalize` returning nil means released -/
-  fin_ok_released : ∀ br w w', P.fin br w = .val (w', .ok) → released br w' = true
+  fin_ok_released : ∀ br w w', Q.wf w = true → P.fin br w = .val (w', .ok) → Q.released br w' = true
   /-- `Initialize` records revisions / replicas / no-need-update only -/
   init_frame : InitFrame P
+
+/-- **Exposure laws** of a plane (`exposure`: how many pods of the new revision the world lets run, `allowed`: what the plan entry
+    of the current batch allows), inside the region `expoOK` in which the plane's own exposure theorems hold. -/
+structure ExposureLaws (P : Plane W) (Q : Preds W) : Prop where
   /-- `Initialize` exposes nothing -/
-  init_exposes_nothing : ∀ br ns w w' ns' r, P.init br ns w = .val (w', ns', r) → exposure w' ≤ exposure w
+  init_exposes_nothing : ∀ br ns w w' ns' r, Q.wf w = true → Q.expoOK br w = true →
+    P.init br ns w = .val (w', ns', r) → Q.exposure w' ≤ Q.exposure w
   /-- `UpgradeBatch` never lowers the exposure … -/
-  upgrade_monotone : ∀ br ns w w' r, P.upgrade br ns w = .val (w', r) → exposure w ≤ exposure w'
+  upgrade_monotone : ∀ br ns w w' r, Q.wf w = true → Q.expoOK br w = true →
+    P.upgrade br ns w = .val (w', r) → Q.exposure w ≤ Q.exposure w'
   /-- … and raises it at most to what the current batch allows -/
-  upgrade_within : ∀ br ns w w' r, P.upgrade br ns w = .val (w', r) → exposure w' ≤ max (exposure w) (allowed br w)
+  upgrade_within : ∀ br ns w w' r, Q.wf w = true → Q.expoOK br w = true →
+    P.upgrade br ns w = .val (w', r) → Q.exposure w' ≤ max (Q.exposure w) (Q.allowed br w)
   /-- a failed `UpgradeBatch` changed nothing -/
   upgrade_err_same : ∀ br ns w w', P.upgrade br ns w = .val (w', .err) → w' = w
 
 /-- the readiness verdict the oracles use: the plane's predicate for the release as the executor holds it -/
-abbrev readyNow {P : Plane W} (L : Laws P) (br : BR) (w : W) : Bool := L.ready (withFinalizer br) w
+abbrev readyNow (Q : Preds W) (br : BR) (w : W) : Bool := Q.ready (withFinalizer br) w
 
 /-! ## the CloneSet executor is an instance -/
 
@@ -107,9 +110,9 @@ theorem x_no_act_before_persist [DecidableEq W] (P : Plane W) (br : BR) (w : W) 
 /-- **C11.i `x_ready_only_if_ready`** — for every lawful plane: whenever the executor acts on a `Progressing` release and leaves
     the batch state `Ready`, `EnsureBatchPodsReadyAndLabeled` passed in this very reconcile, i.e. the plane's own readiness
     predicate holds of the world as it was observed. -/
-theorem x_ready_only_if_ready (P : Plane W) (L : Laws P) (br : BR) (w : W) (o : StepOutX W) (b : BR)
-    (h : reconcileX P br w = .val o) (hb : o.br = some b) :
-    readyOnlyIfReady (stoppedX P br w) (readyNow L br w) br b = true := by
+theorem x_ready_only_if_ready (P : Plane W) (Q : Preds W) (L : Laws P Q) (br : BR) (w : W) (o : StepOutX W) (b : BR)
+    (h : reconcileX P br w = .val o) (hb : o.br = some b) (hwf : Q.wf w = true) :
+    readyOnlyIfReady (stoppedX P br w) (readyNow Q br w) br b = true := by
   unfold readyOnlyIfReady
   split
   · rename_i hc
@@ -120,7 +123,7 @@ theorem x_ready_only_if_ready (P : Plane W) (L : Laws P) (br : BR) (w : W) (o : 
     simp only at hp' hs'
     rcases executeX_cases P L.init_frame _ _ _ _ _ _ _ hex with ⟨_, hpr⟩ | ⟨hnp, _⟩
     · rcases execProgressingX_cases P _ _ _ _ _ _ _ hpr with ⟨_, _, hr, _⟩ | ⟨hmv, _⟩
-      · exact (L.ensure_ok_iff _ _ _).mp (hr hs').2
+      · exact (L.ensure_ok_iff _ _ _ hwf).mp (hr hs').2
       · rw [hmv] at hs'; simp [moveToNextBatch] at hs'
     · exact absurd hp hnp
   · rfl
@@ -128,8 +131,8 @@ theorem x_ready_only_if_ready (P : Plane W) (L : Laws P) (br : BR) (w : W) (o : 
 /-- **C11.ii / C01.3 `x_within_partition`** — for every lawful plane: the executor never works on a batch beyond its
     `batchPartition`: if `currentBatch ≤ batchPartition` held before a reconcile of a release that is (still) Progressing,
     it holds after it — across plan recalculation, restart, scaling and normal advancement. -/
-theorem x_within_partition (P : Plane W) (L : Laws P) (br : BR) (w : W) (o : StepOutX W) (b : BR)
-    (h : reconcileX P br w = .val o) (hb : o.br = some b) (hne : br.status.phase ≠ .empty) :
+theorem x_within_partition (P : Plane W) (Q : Preds W) (L : Laws P Q) (br : BR) (w : W) (o : StepOutX W) (b : BR)
+    (h : reconcileX P br w = .val o) (hb : o.br = some b) (hwf : Q.wf w = true) (hne : br.status.phase ≠ .empty) :
     withinPartition br b = true := by
   unfold withinPartition RV.Oracle.Executor.withinPartition
   cases hpart : br.partition with
@@ -161,9 +164,9 @@ theorem x_within_partition (P : Plane W) (L : Laws P) (br : BR) (w : W) (o : Ste
 /-- **C11.ii / C01.3 `x_batch_advance_guarded`** — for every lawful plane: with an unchanged, healthy plan, `currentBatch` rises
     only by exactly one, only from batch state `Ready`, only with the plane's readiness predicate true in this reconcile, and
     only while `batchPartition` is strictly above it. -/
-theorem x_batch_advance_guarded (P : Plane W) (L : Laws P) (br : BR) (w : W) (o : StepOutX W) (b : BR)
-    (h : reconcileX P br w = .val o) (hb : o.br = some b) :
-    batchAdvanceGuarded (readyNow L br w) br b = true := by
+theorem x_batch_advance_guarded (P : Plane W) (Q : Preds W) (L : Laws P Q) (br : BR) (w : W) (o : StepOutX W) (b : BR)
+    (h : reconcileX P br w = .val o) (hb : o.br = some b) (hwf : Q.wf w = true) :
+    batchAdvanceGuarded (readyNow Q br w) br b = true := by
   unfold batchAdvanceGuarded
   split
   · rename_i hc
@@ -188,7 +191,7 @@ theorem x_batch_advance_guarded (P : Plane W) (L : Laws P) (br : BR) (w : W) (o 
       rcases executeX_cases P L.init_frame _ _ _ _ _ _ _ hex with ⟨_, hpr⟩ | ⟨_, hcb, _⟩
       · rcases execProgressingX_cases P _ _ _ _ _ _ _ hpr with ⟨hcb, _⟩ | ⟨hmv, hrd, hok, hnp, _⟩
         · omega
-        · have hready : readyNow L br w = true := (L.ensure_ok_iff _ _ _).mp hok
+        · have hready : readyNow Q br w = true := (L.ensure_ok_iff _ _ _ hwf).mp hok
           rw [hmv] at hgt ⊢
           simp only [moveToNextBatch, withFinalizer, normState_currentBatch] at hgt ⊢
           cases hpart : br.partition with
@@ -215,9 +218,9 @@ theorem x_batch_advance_guarded (P : Plane W) (L : Laws P) (br : BR) (w : W) (o 
 /-- **C11.iii / C18 `x_completed_means_released`** — for every lawful plane and **every attempt** (any world a previous attempt
     left): phase `Completed` is entered only from `Finalizing`, in a reconcile in which the plane's `Finalize` returned
     without error, and then the plane's `released` predicate holds of the world that call left. -/
-theorem x_completed_means_released (P : Plane W) (L : Laws P) (br : BR) (w : W) (o : StepOutX W) (b : BR)
-    (h : reconcileX P br w = .val o) (hb : o.br = some b) (hne : br.status.phase ≠ .empty) :
-    completedMeansReleased (L.released (withFinalizer br) o.wl) br b = true := by
+theorem x_completed_means_released (P : Plane W) (Q : Preds W) (L : Laws P Q) (br : BR) (w : W) (o : StepOutX W) (b : BR)
+    (h : reconcileX P br w = .val o) (hb : o.br = some b) (hwf : Q.wf w = true) (hne : br.status.phase ≠ .empty) :
+    completedMeansReleased (Q.released (withFinalizer br) o.wl) br b = true := by
   unfold completedMeansReleased
   split
   · rename_i hc
@@ -243,7 +246,7 @@ theorem x_completed_means_released (P : Plane W) (L : Laws P) (br : BR) (w : W) 
       · obtain ⟨hf, hfin'⟩ := hfin hc' hnc
         rw [hw]
         simp only [hf, decide_true, Bool.true_and]
-        exact L.fin_ok_released _ _ _ hfin'
+        exact L.fin_ok_released _ _ _ hwf hfin'
   · rfl
 
 /-- the converse direction, for C18: the executor writes `Completed` **only** in a reconcile whose `Finalize` returned nil
@@ -275,9 +278,9 @@ theorem x_completed_only_after_finalize (P : Plane W) (hI : InitFrame P) (br : B
 
 /-- **C11.iv `x_falls_back`** — for every lawful plane: if the plane's readiness predicate fails while the batch state is
     `Verifying` or `Ready`, the state falls back to `Upgrading` (and a recorded ready time is cleared) rather than staying `Ready`. -/
-theorem x_falls_back (P : Plane W) (L : Laws P) (br : BR) (w : W) (o : StepOutX W) (b : BR)
-    (h : reconcileX P br w = .val o) (hb : o.br = some b) :
-    fallsBack (stoppedX P br w) (readyNow L br w) br b = true := by
+theorem x_falls_back (P : Plane W) (Q : Preds W) (L : Laws P Q) (br : BR) (w : W) (o : StepOutX W) (b : BR)
+    (h : reconcileX P br w = .val o) (hb : o.br = some b) (hwf : Q.wf w = true) :
+    fallsBack (stoppedX P br w) (readyNow Q br w) br b = true := by
   unfold fallsBack
   split
   · rename_i hc
@@ -293,7 +296,7 @@ theorem x_falls_back (P : Plane W) (L : Laws P) (br : BR) (w : W) (o : StepOutX 
       dsimp only at hpr
       rw [hnorm] at hpr
       have hnok : P.ensure (withFinalizer br) br.status w ≠ .val .ok := by
-        intro hok; exact hnr ((L.ensure_ok_iff _ _ _).mp hok)
+        intro hok; exact hnr ((L.ensure_ok_iff _ _ _ hwf).mp hok)
       rcases hst with h1 | h1
       · simp only [h1] at hpr
         split at hpr
@@ -358,9 +361,9 @@ theorem x_plan_change_falls_back (P : Plane W) (br : BR) (w : W) (o : StepOutX W
 
 /-- **C07 `x_verifying_becomes_ready`** — for every lawful plane: when the plane's readiness predicate holds, a reconcile in
     `Verifying` reports `Ready` (with the ready time set) and touches nothing. -/
-theorem x_verifying_becomes_ready (P : Plane W) (L : Laws P) (br : BR) (w : W) (o : StepOutX W)
-    (h : reconcileX P br w = .val o) (hns : stoppedX P br w = false)
-    (hp : br.status.phase = .progressing) (hst : br.status.batchState = .verifying) (hr : readyNow L br w = true) :
+theorem x_verifying_becomes_ready (P : Plane W) (Q : Preds W) (L : Laws P Q) (br : BR) (w : W) (o : StepOutX W)
+    (h : reconcileX P br w = .val o) (hwf : Q.wf w = true) (hns : stoppedX P br w = false)
+    (hp : br.status.phase = .progressing) (hst : br.status.batchState = .verifying) (hr : readyNow Q br w = true) :
     ∃ b, o.br = some b ∧ b.status.batchState = .ready ∧ b.status.hasReadyTime = true ∧
       b.status.currentBatch = br.status.currentBatch ∧ o.wl = w := by
   obtain ⟨ns', w', rq, er, hex, hb, hw⟩ := reconcileX_exec P br w o h hns
@@ -370,7 +373,7 @@ theorem x_verifying_becomes_ready (P : Plane W) (L : Laws P) (br : BR) (w : W) (
     have hnorm : normState br.status = br.status := by unfold normState; simp [hst]
     rw [hnorm] at hpr
     simp only [hst] at hpr
-    rw [(L.ensure_ok_iff _ _ _).mpr hr] at hpr
+    rw [(L.ensure_ok_iff _ _ _ hwf).mpr hr] at hpr
     simp only [Out.val.injEq, Prod.mk.injEq] at hpr
     obtain ⟨h1, h2, _, _⟩ := hpr
     refine ⟨_, hb, ?_, ?_, ?_, ?_⟩
@@ -382,9 +385,9 @@ theorem x_verifying_becomes_ready (P : Plane W) (L : Laws P) (br : BR) (w : W) (
 
 /-- **C07 `x_ready_is_fixed_point`** — for every lawful plane: a batch that is `Ready`, whose pods still satisfy the plane's
     readiness predicate and whose partition does not ask for more, is a fixed point: neither the status nor the world changes. -/
-theorem x_ready_is_fixed_point (P : Plane W) (L : Laws P) (br : BR) (w : W) (o : StepOutX W)
-    (h : reconcileX P br w = .val o) (hns : stoppedX P br w = false)
-    (hp : br.status.phase = .progressing) (hst : br.status.batchState = .ready) (hr : readyNow L br w = true)
+theorem x_ready_is_fixed_point (P : Plane W) (Q : Preds W) (L : Laws P Q) (br : BR) (w : W) (o : StepOutX W)
+    (h : reconcileX P br w = .val o) (hwf : Q.wf w = true) (hns : stoppedX P br w = false)
+    (hp : br.status.phase = .progressing) (hst : br.status.batchState = .ready) (hr : readyNow Q br w = true)
     (hpart : isPartitioned br = true) :
     o.br = some (withFinalizer br) ∧ o.wl = w := by
   obtain ⟨ns', w', rq, er, hex, hb, hw⟩ := reconcileX_exec P br w o h hns
@@ -394,7 +397,7 @@ theorem x_ready_is_fixed_point (P : Plane W) (L : Laws P) (br : BR) (w : W) (o :
     have hnorm : normState br.status = br.status := by unfold normState; simp [hst]
     rw [hnorm] at hpr
     simp only [hst] at hpr
-    rw [(L.ensure_ok_iff _ _ _).mpr hr] at hpr
+    rw [(L.ensure_ok_iff _ _ _ hwf).mpr hr] at hpr
     have hpart' : isPartitioned (withFinalizer br) = true := hpart
     simp only [hpart', not_true_eq_false, if_false, Out.val.injEq, Prod.mk.injEq] at hpr
     obtain ⟨h1, h2, _, _⟩ := hpr
@@ -404,9 +407,9 @@ theorem x_ready_is_fixed_point (P : Plane W) (L : Laws P) (br : BR) (w : W) (o :
   · exact absurd hp hnp
 
 /-- **C07 `x_settles`** (the oracle form of the two theorems above) -/
-theorem x_settles [DecidableEq W] (P : Plane W) (L : Laws P) (br : BR) (w : W) (o : StepOutX W) (b : BR)
-    (h : reconcileX P br w = .val o) (hb : o.br = some b) :
-    settles (stoppedX P br w) (readyNow L br w) br b w o.wl = true := by
+theorem x_settles [DecidableEq W] (P : Plane W) (Q : Preds W) (L : Laws P Q) (br : BR) (w : W) (o : StepOutX W) (b : BR)
+    (h : reconcileX P br w = .val o) (hb : o.br = some b) (hwf : Q.wf w = true) :
+    settles (stoppedX P br w) (readyNow Q br w) br b w o.wl = true := by
   unfold settles
   split
   · rename_i hc
@@ -414,12 +417,12 @@ theorem x_settles [DecidableEq W] (P : Plane W) (L : Laws P) (br : BR) (w : W) (
     have hns' : stoppedX P br w = false := by simpa using hns
     split
     · rename_i hv
-      obtain ⟨b', hb', f1, f2, f3, f4⟩ := x_verifying_becomes_ready P L br w o h hns' hp hv hr
+      obtain ⟨b', hb', f1, f2, f3, f4⟩ := x_verifying_becomes_ready P Q L br w o h hwf hns' hp hv hr
       rw [hb'] at hb; simp only [Option.some.injEq] at hb; subst hb
       simp [f1, f2, f3, f4]
     · split
       · rename_i hrd
-        obtain ⟨f1, f2⟩ := x_ready_is_fixed_point P L br w o h hns' hp hrd.1 hr hrd.2
+        obtain ⟨f1, f2⟩ := x_ready_is_fixed_point P Q L br w o h hwf hns' hp hrd.1 hr hrd.2
         rw [f1] at hb; simp only [Option.some.injEq] at hb; subst hb
         simp [withFinalizer, f2]
       · rfl
@@ -428,15 +431,16 @@ theorem x_settles [DecidableEq W] (P : Plane W) (L : Laws P) (br : BR) (w : W) (
 /-- **C01 `x_write_within_batch`** — for every lawful plane: a reconcile of a release that is and stays `Progressing` changes the
     exposure of the new revision only upwards and at most to what the plan entry of the batch the *persisted* status points at
     allows; every other such reconcile leaves the exposure as it is. -/
-theorem x_write_within_batch (P : Plane W) (L : Laws P) (br : BR) (w : W) (o : StepOutX W) (b : BR)
-    (h : reconcileX P br w = .val o) (hb : o.br = some b) :
-    writeWithinBatch (L.exposure w) (L.exposure o.wl) (L.allowed (withFinalizer br) w) br b = true := by
+theorem x_write_within_batch (P : Plane W) (Q : Preds W) (L : Laws P Q) (E : ExposureLaws P Q) (br : BR) (w : W)
+    (o : StepOutX W) (b : BR) (h : reconcileX P br w = .val o) (hb : o.br = some b)
+    (hwf : Q.wf w = true) (hok : Q.expoOK (withFinalizer br) w = true) :
+    writeWithinBatch (Q.exposure w) (Q.exposure o.wl) (Q.allowed (withFinalizer br) w) br b = true := by
   unfold writeWithinBatch
   split
   · rename_i hc
     obtain ⟨hp, hp'⟩ := hc
-    have same : ∀ w', w' = w → (decide (L.exposure w ≤ L.exposure w') &&
-        decide (L.exposure w' ≤ max (L.exposure w) (L.allowed (withFinalizer br) w))) = true := by
+    have same : ∀ w', w' = w → (decide (Q.exposure w ≤ Q.exposure w') &&
+        decide (Q.exposure w' ≤ max (Q.exposure w) (Q.allowed (withFinalizer br) w))) = true := by
       intro w' hw; subst hw
       simp only [Int.le_refl, decide_true, Bool.true_and, decide_eq_true_eq]
       omega
@@ -450,8 +454,8 @@ theorem x_write_within_batch (P : Plane W) (L : Laws P) (br : BR) (w : W) (o : S
       · rcases execProgressingX_cases P _ _ _ _ _ _ _ hpr with ⟨_, _, _, hw' | ⟨r, hu⟩⟩ | ⟨_, _, _, _, hw'⟩
         · exact same _ (by rw [hw, hw'])
         · rw [hw]
-          have m := L.upgrade_monotone _ _ _ _ _ hu
-          have wi := L.upgrade_within _ _ _ _ _ hu
+          have m := E.upgrade_monotone _ _ _ _ _ hwf hok hu
+          have wi := E.upgrade_within _ _ _ _ _ hwf hok hu
           simp only [Bool.and_eq_true, decide_eq_true_eq]
           exact ⟨m, wi⟩
         · exact same _ (by rw [hw, hw'])
@@ -519,159 +523,6 @@ theorem x_unsupported_kind_is_inert (s : Style) (e : Bool) (br : BR) (w : W) :
       · simp [resetStatus]
       · assumption
 
-/-! ## the CloneSet plane is lawful -/
-
-/-- readiness of the CloneSet plane = the verdict of `RV.Oracle.Executor.batchReadyNow` -/
-def csLaws : Laws csPlane where
-  ready := fun br wl => RV.Oracle.Executor.batchReadyNow br wl
-  released := fun _ wl => match wl with
-    | none => true
-    | some w => decide (w.owner ≠ .this)
-  exposure := fun wl => match wl with
-    | none => 0
-    | some w => exposure (w.partition.getD (.int 0)) w.replicas
-  allowed := fun br wl => match wl with
-    | none => 0
-    | some w =>
-      match calcCtx (obsOf br br.status w) with
-      | .ok c => exposure c.knobDes w.replicas
-      | .panic => 0
-  ensure_ok_iff := by
-    intro br ns wl
-    constructor
-    · intro h
-      have := RV.Props.Executor.ensureReady_ok_iff { br with hasFinalizer := br.hasFinalizer } ns wl
-      unfold csPlane at h
-      -- `ensureReady` does not read the finalizer flag
-      have h2 : ensureReady (withFinalizer br) ns wl = .val .ok := by
-        have : ensureReady (withFinalizer br) ns wl = ensureReady br ns wl := by
-          unfold ensureReady; cases wl <;> rfl
-        rw [this]; exact h
-      exact RV.Props.Executor.ensureReady_ok_iff br ns wl h2
-    · intro h
-      have h2 := RV.Props.Executor.ensureReady_of_ready br ns wl h
-      have : ensureReady (withFinalizer br) ns wl = ensureReady br ns wl := by
-        unfold ensureReady; cases wl <;> rfl
-      rw [this] at h2; exact h2
-  fin_ok_released := by
-    intro br wl wl' h
-    simp only [csPlane, Out.val.injEq] at h
-    unfold RV.Executor.finalize at h
-    cases wl with
-    | none => simp only [Prod.mk.injEq] at h; obtain ⟨h1, _⟩ := h; subst h1; rfl
-    | some w =>
-      simp only [Prod.mk.injEq] at h
-      obtain ⟨h1, _⟩ := h; subst h1
-      dsimp only; split <;> simp
-  init_frame := by
-    intro br ns wl wl' ns' r h
-    simp only [csPlane, Out.val.injEq] at h
-    unfold initializeWl at h
-    cases wl with
-    | none => simp only [Prod.mk.injEq] at h; obtain ⟨_, h2, _⟩ := h; subst h2; exact ⟨rfl, rfl, rfl, rfl, rfl⟩
-    | some w =>
-      simp only [Prod.mk.injEq] at h
-      obtain ⟨_, h2, _⟩ := h; subst h2
-      split <;> exact ⟨rfl, rfl, rfl, rfl, rfl⟩
-  init_exposes_nothing := by
-    intro br ns wl wl' ns' r h
-    simp only [csPlane, Out.val.injEq] at h
-    unfold initializeWl at h
-    cases wl with
-    | none => simp only [Prod.mk.injEq] at h; obtain ⟨h1, _⟩ := h; subst h1; exact Int.le_refl _
-    | some w =>
-      simp only [Prod.mk.injEq] at h
-      obtain ⟨h1, _⟩ := h; subst h1
-      dsimp only
-      split
-      · exact Int.le_refl _
-      · simp only [Option.getD_some]
-        have h100 : scaledV (.pct 100) w.replicas true = w.replicas := by
-          unfold scaledV scaled ceilDiv100; simp only [if_true]; omega
-        unfold exposure keptStable
-        rw [h100]
-        omega
-  upgrade_monotone := by
-    intro br ns wl wl' r h
-    simp only [csPlane] at h
-    unfold upgradeBatch at h
-    cases wl with
-    | none => simp only [Out.val.injEq, Prod.mk.injEq] at h; obtain ⟨h1, _⟩ := h; subst h1; exact Int.le_refl _
-    | some w =>
-      dsimp only at h
-      split at h
-      · simp only [Out.val.injEq, Prod.mk.injEq] at h; obtain ⟨h1, _⟩ := h; subst h1; exact Int.le_refl _
-      · split at h
-        · cases h
-        · rename_i c hc
-          split at h
-          · simp only [Out.val.injEq, Prod.mk.injEq] at h; obtain ⟨h1, _⟩ := h; subst h1; exact Int.le_refl _
-          · rename_i k hk
-            simp only [Out.val.injEq, Prod.mk.injEq] at h; obtain ⟨h1, _⟩ := h; subst h1
-            dsimp only
-            -- `upgrade .cloneSet c = some k` only when the current partition keeps more pods than the desired one
-            unfold upgrade at hk
-            simp only at hk
-            split at hk
-            · cases hk
-            · rename_i hgt
-              simp only [Option.some.injEq] at hk; subst hk
-              have hcur : c.knobCur = w.partition.getD (.int 0) := by
-                unfold calcCtx at hc
-                split at hc
-                · cases hc
-                · simp only [Outcome.ok.injEq] at hc; subst hc; rfl
-              have hrep : c.replicas = w.replicas := by
-                unfold calcCtx at hc
-                split at hc
-                · cases hc
-                · simp only [Outcome.ok.injEq] at hc; subst hc; rfl
-              simp only [Option.getD_some]
-              rw [hcur, hrep] at hgt
-              unfold exposure keptStable
-              omega
-  upgrade_within := by
-    intro br ns wl wl' r h
-    simp only [csPlane] at h
-    unfold upgradeBatch at h
-    cases wl with
-    | none => simp only [Out.val.injEq, Prod.mk.injEq] at h; obtain ⟨h1, _⟩ := h; subst h1; simp
-    | some w =>
-      dsimp only at h
-      split at h
-      · simp only [Out.val.injEq, Prod.mk.injEq] at h; obtain ⟨h1, _⟩ := h; subst h1; dsimp only; omega
-      · split at h
-        · cases h
-        · rename_i c hc
-          have hobs : obsOf br ns w = obsOf br br.status w := rfl
-          split at h
-          · simp only [Out.val.injEq, Prod.mk.injEq] at h; obtain ⟨h1, _⟩ := h; subst h1; dsimp only; omega
-          · rename_i k hk
-            simp only [Out.val.injEq, Prod.mk.injEq] at h; obtain ⟨h1, _⟩ := h; subst h1
-            dsimp only
-            rw [← hobs, hc]
-            dsimp only
-            unfold upgrade at hk
-            simp only at hk
-            split at hk
-            · cases hk
-            · simp only [Option.some.injEq] at hk; subst hk
-              simp only [Option.getD_some]
-              omega
-  upgrade_err_same := by
-    intro br ns wl wl' h
-    simp only [csPlane] at h
-    unfold upgradeBatch at h
-    cases wl with
-    | none => simp only [Out.val.injEq, Prod.mk.injEq] at h; exact h.1.symm
-    | some w =>
-      dsimp only at h
-      split at h
-      · simp only [Out.val.injEq, Prod.mk.injEq] at h; exact absurd h.2 (by decide)
-      · split at h
-        · cases h
-        · split at h <;> (simp only [Out.val.injEq, Prod.mk.injEq] at h; exact absurd h.2 (by decide))
-
 /-! ### non-vacuity (tests on literals) -/
 
 /-- the advance happens through `reconcileX` on the CloneSet plane exactly as through `reconcile` -/
@@ -682,7 +533,7 @@ example : (match reconcileX csPlane RV.Props.Executor.exampleBR (some RV.Props.E
 /-- the hypotheses of `x_verifying_becomes_ready` are satisfiable on the CloneSet plane -/
 example : stoppedX csPlane { RV.Props.Executor.exampleBR with status := { RV.Props.Executor.exampleBR.status with batchState := .verifying } }
       (some RV.Props.Executor.exampleWL) = false ∧
-    readyNow csLaws { RV.Props.Executor.exampleBR with status := { RV.Props.Executor.exampleBR.status with batchState := .verifying } }
+    readyNow csPreds { RV.Props.Executor.exampleBR with status := { RV.Props.Executor.exampleBR.status with batchState := .verifying } }
       (some RV.Props.Executor.exampleWL) = true := by decide
 
 /-- dispatch examples: blue-green CloneSet, canary Deployment (by style and by the deprecated flag), canary falls through
